@@ -303,15 +303,16 @@ def replay(case):
 def run(rep, tier, seed):
     base = seed * 1000 + 3
     seeds = [base, base + 1, base + 2]
+    zero_seeds = [0, np.int64(0)]  # falsy seeds are seeds too
     all_names = [n for n, _ in configs.all_configs()] + ['synthetic']
     if tier == 'quick':
         twin_cfg = [('synthetic', 3), ('teleport.5x5', 3), ('dynamic_obstacles.5x5', 3), ('keydoor.5x5', 2), ('memory.5x5', 2),
                     ('crossing.5x5', 2), ('empty.4x4', 2), ('four_rooms.7x7', 2), ('memory_four_rooms.7x7', 2), ('teleport.7x7', 2),
                     ('dynamic_obstacles.7x7', 2), ('keydoor.7x7', 2), ('crossing.7x7', 2)]
-        twin_seeds = seeds[:2]
+        twin_seeds = seeds[:2] + zero_seeds[:1]
     else:
         twin_cfg = [(n, 4 if n in ('synthetic', 'teleport.5x5', 'dynamic_obstacles.5x5') else 3) for n in all_names]
-        twin_seeds = seeds
+        twin_seeds = seeds + zero_seeds
     jobs = []
     for name, depth in twin_cfg:
         env = envs.fresh(name, 0)
@@ -336,7 +337,7 @@ def run(rep, tier, seed):
     rep.part('directed_twin_runs', sequences=dn, operations=dops,
              rule='for every configuration and seed, one shortest action path from the seeded initial state to every cell '
              'reachable under the reference navigation model (drives the run onto telepods, obstacles, exits)')
-    rep.part('twin_runs', configs=[f'{n} depth {d}' for n, d in twin_cfg], seeds=twin_seeds, sequences=tn, operations=tops,
+    rep.part('twin_runs', configs=[f'{n} depth {d}' for n, d in twin_cfg], seeds=[int(x) for x in twin_seeds], sequences=tn, operations=tops,
              variants='env1 vs env2 (same seed) vs env3 (debug flag off); global-RNG tripwire after every operation')
     # interleavings
     inter_cfg = [('synthetic', ['MOVE_FORWARD', 'TURN_LEFT']), ('teleport.5x5', ['MOVE_FORWARD', 'MOVE_RIGHT'])]
